@@ -1383,7 +1383,7 @@ def generate(mode, out_path, vacuity_props=None):
 def build_linemap(text):
     """scan markers: /*@L label props=..*/ ... /*@E*/  and /*@F qname*/"""
     labels = []
-    for m in re.finditer(r'/\*@L (\S+) props=([^*]*)\*/(.*?)/\*@E\*/', text, re.S):
+    for m in re.finditer(r'/\*@L (\S+) props=(\S*?)\*/(.*?)/\*@E\*/', text, re.S):
         l0 = text.count('\n', 0, m.start()) + 1
         l1 = text.count('\n', 0, m.end()) + 1
         labels.append({'label': m.group(1), 'props': [p for p in m.group(2).split(',') if p],
